@@ -13,7 +13,10 @@ class C13(Prop):
             "call by call with the model; every 5th case is free running (records flowing, up to 6 concurrent "
             "Reconfigure goroutines with failing Opens and timed cancels, graceful close or kill) and judged by the "
             "monitor only; every 10th case drives the real lifecycle.Service.ReconfigureProcessor (processor.Service, "
-            "RunnableProcessor, running flag probed through processor.Service.Update) on a running v1 pipeline s1->p1->d1; "
+            "RunnableProcessor, running flag probed through processor.Service.Update) on a running v1 pipeline with a chain "
+            "of 1-3 processors whose ids are prefixes of one another (p1, p10, p1x; every order), each stamping (id, "
+            "instance) into the record, each reconfigured in turn; every processor node is judged by the monitor and every "
+            "record must carry exactly one stamp per processor in chain order; "
             "thorough adds every schedule up to length 5 over {A,R1,R0,O,P,C0,C1,X}. one case checks the v2 sentinel. distinct = distinct input JSON; non-trivial = at least one record and one request whose new "
             "processor was opened by the node")
     trusted_base = [
@@ -48,7 +51,9 @@ class C13(Prop):
         o = case.get("observed") or {}
         if i.get("kind") == "v2":
             return True
-        evs = o.get("evs") or []
+        evs = list(o.get("evs") or [])
+        for po in o.get("per") or []:
+            evs += po.get("evs") or []
         return any(e["k"] == "open" and e["a"] > 0 for e in evs) and any(e["k"] == "proc" for e in evs)
 
     def finding_key(self, case, code):
@@ -74,7 +79,11 @@ class C13(Prop):
             env = i.get("env") or []
             d["with_kill"] += ("K" in env) or (i.get("race") or {}).get("end") == "kill"
             d["with_close"] += "X" in env
-            res = o.get("res") or []
+            res = list(o.get("res") or [])
+            for po in o.get("per") or []:
+                res += po.get("res") or []
+                d["records"] += po.get("taken") or 0
+            d["chains_of_2_or_3"] = d.get("chains_of_2_or_3", 0) + (len(i.get("procs") or []) > 1)
             d["requests"] += len(res)
             d["swaps_applied"] += sum(1 for r in res if r["res"] == "ok")
             d["open_failed"] += sum(1 for r in res if r["res"] == "erropen")
